@@ -1,5 +1,5 @@
 (** Pins/C06.v — the statements of the C06 theorems, pinned. *)
-From PdfV Require Import Base.Prelude Gen.Generated Crypt.Rc4 Crypt.Rc4Proofs Crypt.Model Crypt.Spec Crypt.Tables Crypt.Proofs Properties.C06.
+From PdfV Require Import Base.Prelude Gen.Generated Crypt.Rc4 Crypt.Rc4Proofs Crypt.Model Crypt.Spec Crypt.Tables Crypt.Proofs Crypt.KdfProofs Properties.C06.
 
 Check C06_rc4_involution : forall k m, 1 <= lenN k <= 256 ->
   exists c, rc4 k m = Ok c /\ rc4 k c = Ok m /\ length c = length m.
@@ -50,3 +50,6 @@ Check C06_exempt : forall MD5 AESD dc enc meta data,
   (forall num gen, meta = Some (num, gen) -> k_em dc = false ->
      decrypt (fun x => Ok (MD5 x)) (fun k iv x => Ok (AESD k iv x)) (install dc enc meta) num gen data = Ok data).
 Check C06_strf_refuted : ~ C06_full_statement.
+Check C06_kdf_refines : forall SHA256 SHA384 SHA512 AESE, (forall x, length (SHA256 x) = 32%nat) ->
+  forall fuel pw salt u h, alg2b SHA256 SHA384 SHA512 AESE fuel pw salt u = Some h ->
+  revision_6_kdf (fun x => Ok (SHA256 x)) (fun x => Ok (SHA384 x)) (fun x => Ok (SHA512 x)) (fun k iv x => Ok (AESE k iv x)) fuel pw salt u = Ok h.
